@@ -578,9 +578,9 @@ ends with a result, the product of the result equals `∏ stack^mult · ∏ map`
 started in — provided the splitting routine only ever returns positive divisors. -/
 theorem driverLoop_product (ecmFn : Int → Nat → Nat → NTV.Draw.Stream → EcmRes)
     (hE : ∀ now b1 b2 s fac c s', 1 < now → ecmFn now b1 b2 s = .found fac c s' → fac ∣ now ∧ 0 < fac)
-    (b : Nat) (fuel : Nat) (st : DState) (hpos : StackPos st.stack)
+    (bsel : Int → Option Nat) (fuel : Nat) (st : DState) (hpos : StackPos st.stack)
     (result : List (Int × Nat)) (count : Nat) (rest : NTV.Draw.Stream)
-    (h : driverLoop ecmFn .dev b fuel st = .ok result count rest) : prodPairs result = value st := by
+    (h : driverLoop ecmFn .dev bsel fuel st = .ok result count rest) : prodPairs result = value st := by
   induction fuel generalizing st with
   | zero =>
     unfold driverLoop at h
@@ -650,44 +650,47 @@ theorem driverLoop_product (ecmFn : Int → Nat → Nat → NTV.Draw.Stream → 
                 ring
             · -- split by the ECM routine
               split at h
-              · cases h
+              · cases h     -- no bound supplied for this item
               · split at h
                 · cases h
-                · cases h
-                · rename_i fac nowcount s' hfound
-                  obtain ⟨hdvd, hfacpos⟩ := hE _ _ _ _ _ _ _ hnow hfound
-                  split at h
+                · split at h
                   · cases h
-                  · split at h
-                    · have hpos' : StackPos (st.stack.dropLast ++ [(now, mult)]) :=
-                        stackPos_append hposD (by intro e he; simp at he; subst he; exact hnow1)
-                      have := ih _ hpos' h
-                      rw [this, hval]
-                      simp only [value, prodPairs_append, prodPairs]
-                      ring
-                    · have hmul : fac * Int.tdiv now fac = now := Int.mul_tdiv_cancel' hdvd
-                      have hother : 1 ≤ Int.tdiv now fac := by
-                        by_contra hc
-                        have h0 : Int.tdiv now fac ≤ 0 := by omega
-                        have : fac * Int.tdiv now fac ≤ 0 := Int.mul_nonpos_of_nonneg_of_nonpos (by omega) h0
-                        omega
-                      have hpos' : StackPos (st.stack.dropLast ++ [(fac, mult), (Int.tdiv now fac, mult)]) :=
-                        stackPos_append hposD (by
-                          intro e he
-                          simp at he
-                          rcases he with he | he
-                          · subst he; exact hfacpos
-                          · subst he; exact hother)
-                      have := ih _ hpos' h
-                      rw [this, hval]
-                      simp only [value, prodPairs_append, prodPairs]
-                      have : now ^ mult = fac ^ mult * Int.tdiv now fac ^ mult := by
-                        rw [← mul_pow, hmul]
-                      rw [this]
-                      ring
+                  · cases h
+                  · rename_i fac nowcount s' hfound
+                    obtain ⟨hdvd, hfacpos⟩ := hE _ _ _ _ _ _ _ hnow hfound
+                    split at h
+                    · cases h
+                    · split at h
+                      · have hpos' : StackPos (st.stack.dropLast ++ [(now, mult)]) :=
+                          stackPos_append hposD (by intro e he; simp at he; subst he; exact hnow1)
+                        have := ih _ hpos' h
+                        rw [this, hval]
+                        simp only [value, prodPairs_append, prodPairs]
+                        ring
+                      · have hmul : fac * Int.tdiv now fac = now := Int.mul_tdiv_cancel' hdvd
+                        have hother : 1 ≤ Int.tdiv now fac := by
+                          by_contra hc
+                          have h0 : Int.tdiv now fac ≤ 0 := by omega
+                          have : fac * Int.tdiv now fac ≤ 0 := Int.mul_nonpos_of_nonneg_of_nonpos (by omega) h0
+                          omega
+                        have hpos' : StackPos (st.stack.dropLast ++ [(fac, mult), (Int.tdiv now fac, mult)]) :=
+                          stackPos_append hposD (by
+                            intro e he
+                            simp at he
+                            rcases he with he | he
+                            · subst he; exact hfacpos
+                            · subst he; exact hother)
+                        have := ih _ hpos' h
+                        rw [this, hval]
+                        simp only [value, prodPairs_append, prodPairs]
+                        have : now ^ mult = fac ^ mult * Int.tdiv now fac ^ mult := by
+                          rw [← mul_pow, hmul]
+                        rw [this]
+                        ring
 
 /-- **both drivers, dev profile**: if `factorize_verbose(x)` returns, the product of the returned
-prime powers is exactly x (for every stream of draws and every B1) -/
+prime powers is exactly x (for every stream of draws, every B1 and, for the batched driver, every table
+of per-item bounds) -/
 theorem factorizeSeq_product (x : Int) (b : Nat) (stream : NTV.Draw.Stream) (fuel : Nat)
     (result : List (Int × Nat)) (count : Nat) (rest : NTV.Draw.Stream)
     (h : factorizeSeq x b stream fuel .dev = .ok result count rest) : prodPairs result = x := by
@@ -697,20 +700,20 @@ theorem factorizeSeq_product (x : Int) (b : Nat) (stream : NTV.Draw.Stream) (fue
   · rename_i hx
     have := driverLoop_product _ (fun now b1 b2 s fac c s' hnow hf => by
       obtain ⟨h1, _, h3⟩ := ecm_found_proper now hnow b1 b2 s _ _ fac c s' hf
-      exact ⟨h3, by omega⟩) b fuel _ (by intro e he; simp at he; subst he; simp; omega) result count rest h
+      exact ⟨h3, by omega⟩) _ fuel _ (by intro e he; simp at he; subst he; simp; omega) result count rest h
     rw [this]
     simp [value, prodPairs]
 
-theorem factorizePar_product (x : Int) (b : Nat) (stream : NTV.Draw.Stream) (fuel : Nat)
+theorem factorizePar_product (x : Int) (b : Nat) (btab : List (Int × Nat)) (stream : NTV.Draw.Stream) (fuel : Nat)
     (result : List (Int × Nat)) (count : Nat) (rest : NTV.Draw.Stream)
-    (h : factorizePar x b stream fuel .dev = .ok result count rest) : prodPairs result = x := by
+    (h : factorizePar x b btab stream fuel .dev = .ok result count rest) : prodPairs result = x := by
   unfold factorizePar factorizeWith at h
   split at h
   · cases h
   · rename_i hx
     have := driverLoop_product _ (fun now b1 b2 s fac c s' hnow hf => by
       obtain ⟨h1, _, h3⟩ := ecmParallel_found_proper now hnow b1 b2 s _ _ fac c s' hf
-      exact ⟨h3, by omega⟩) b fuel _ (by intro e he; simp at he; subst he; simp; omega) result count rest h
+      exact ⟨h3, by omega⟩) _ fuel _ (by intro e he; simp at he; subst he; simp; omega) result count rest h
     rw [this]
     simp [value, prodPairs]
 
